@@ -493,3 +493,12 @@ func c05Replace(rep *Report, w *World, in *Instr) {
 		}
 	}
 }
+
+func signWith(keyHex string, msg []byte) []byte {
+	key, err := ethcrypto.HexToECDSA(keyHex)
+	if err != nil {
+		return nil
+	}
+	s, _ := ethcrypto.Sign(ethcrypto.Keccak256(msg), key)
+	return s
+}
